@@ -577,3 +577,44 @@ def d8_name_exact(db, rep):
                   "a variable is returned only where strcmp (name, ...) == 0",
                   "orc_program_find_var_by_name returns a variable without an exact comparison of the whole name (comparisons on the path: %s): two "
                   "variables whose names differ (in case, in a suffix ...) are taken for one, and an error-free parse builds other operands than written" % how, line=r.line)
+
+
+def d12_const_name_kept(db, rep, rule="D12-CONST-NAME-KEPT"):
+    """D12: instructions refer to a declared constant BY NAME.  orc_program_add_constant_str shares the slot of an equal
+    constant; when it returns an existing slot the name the caller asked for must not get lost: the early return of a slot
+    found by value must lie under a must-fact that the names are equal, or that the requested name is one the parser made up
+    for a literal (those start with `_` and are never referred to again).  Otherwise `.const 4 c1 5` / `.const 4 c2 5` /
+    `addl d, s, c2` - a well-formed source - is rejected with "bad operand c2"."""
+    f = db.func("orc_program_add_constant_str", "orcprogram")
+    rep.saw(f)
+    fc = Facts(f)
+    rets = [r for r in f.walk() if r.k == "ReturnStmt" and r.c and r.c[0] is not None and strip_casts(r.c[0]).v is None
+            and any(y.k == "DeclRefExpr" and y.get("dk") == "local" for y in r.c[0].walk())
+            and any(a.k in ("ForStmt", "WhileStmt") for a in r.ancestors())]
+    if not rets:
+        raise AnalysisBroken("orc_program_add_constant_str: return of a shared slot not found")
+    nm = [p_["name"] for p_ in f.params if "char" in (p_.get("ty") or "")][-1]
+    for r in rets:
+        ok = False
+        for c_ in fc.conds(r):
+            if c_[0] == "switch":
+                continue
+            e, pol = strip_casts(c_[0]), c_[1]
+            if e.k == "CallExpr" and e.name in ("strcmp",) and pol is False and any(access_path(strip_casts(a)) == nm for a in e.args()):
+                ok = True
+            if e.k == "BinaryOperator" and e.op in ("==", "!=") and unparse(strip_casts(e.c[0])).replace(" ", "") in ("%s[0]" % nm, "*%s" % nm) \
+                    and strip_casts(e.c[1]).v == ord("_") and (pol is True) == (e.op == "=="):
+                ok = True
+        # the two alternatives are one disjunction in the source: accept it when both atoms appear in the condition that dominates
+        if not ok:
+            for x in f.walk():
+                if x.k == "IfStmt" and any(y.id == r.id for y in x.c[1].walk()):
+                    t = unparse(x.c[0]).replace(" ", "")
+                    if "strcmp(" in t and nm in t and "==0" in t:
+                        ok = True
+        rep.check(ok, rule, where(f), "shared-slot@%s" % r.line,
+                  "an existing slot is returned only for the same name (or for a literal's made-up name)",
+                  "orc_program_add_constant_str returns the slot of an equal constant (line %s) whatever name was asked for: a constant declared under a "
+                  "second name is never recorded, and the instruction that uses that name is refused (`bad operand`), although the source is well-formed" % r.line,
+                  line=r.line)
+
